@@ -150,6 +150,11 @@ Definition starts_with_digit (s : string) : bool :=
 Definition check_resolves (cols : list string) (chk : string * string) : bool :=
   forallb (fun w => (starts_with_digit w || imem w sql_words || imem w cols)%bool) (bare_tokens (snd chk) 0 EmptyString).
 
+(* a value expression (fill value, default literal) resolves: its bare tokens are numbers, SQL words or columns of the table *)
+Definition value_words : list string := sql_words ++ ["current_timestamp"; "current_date"; "current_time"; "hex"; "randomblob"].
+Definition value_resolves (cols : list string) (text : string) : bool :=
+  forallb (fun w => (starts_with_digit w || imem w value_words || imem w cols)%bool) (bare_tokens text 0 EmptyString).
+
 Definition check_uses (col : string) (chk : string * string) : bool := mentions_token col (snd chk) 0 EmptyString.
 
 (* ---------- CREATE TABLE ---------- *)
@@ -297,20 +302,22 @@ Definition exec (fk_on : bool) (c : catalog) (st : stmt) : result catalog engine
           match find (fun n => negb (has_ccol n d)) cols with
           | Some n => Err (ENoSuchColumn dst n)
           | None =>
-              match find (fun e => match e with SelCol n => negb (has_ccol n s) | SelExpr _ _ => false end) exprs with
+              match find (fun e => match e with SelCol n => negb (has_ccol n s) | SelExpr x _ => negb (value_resolves (ccol_names s) x) end) exprs with
               | Some (SelCol n) => Err (ENoSuchColumn src n)
-              | _ =>
+              | Some (SelExpr x _) => Err (ENoSuchColumn src x)
+              | None =>
                   if negb (Nat.eqb (List.length cols) (List.length exprs)) then Err (EArity dst)
                   else if (fk_on && negb (child_writable c d))%bool then Err (EForeignKey dst)
                   else Ok c
               end
           end
       end
-  | SUpdate table col _ w =>
+  | SUpdate table col v w =>
       match find_ctable table c with
       | None => Err (ENoSuchTable table)
       | Some t =>
           if negb (has_ccol col t) then Err (ENoSuchColumn table col)
+          else if negb (value_resolves (ccol_names t) v) then Err (ENoSuchColumn table v)
           else match (match w with WNone => None | WIsNull x | WEqLit x _ => Some x end) with
                | Some x => if has_ccol x t then
                              (* foreign_keys=ON: assigning a child key column prepares the parent lookup *)
